@@ -23,6 +23,10 @@ import weave  # noqa: E402
 
 VERIF = os.path.dirname(HERE)
 EVID = os.path.join(VERIF, "evidence")
+# A run against anything other than /repo (tools/try_seed.sh: a scratch copy with a seeded change)
+# must not touch the committed evidence: its logs and replay files go to scratch space.
+if os.environ.get("VERIF_REPO", "/repo") != "/repo":
+    EVID = os.path.join(os.environ.get("VERIF_SCRATCH", "/var/tmp"), "wild-verif-seed-evidence")
 UNDECIDED_PATTERNS = [
     r"unwinding assertion", r"is not currently supported by Kani", r"unsupported",
     r"recursion unwinding", r"Unsupported", r"unreachable code: unsupported",
@@ -87,7 +91,7 @@ def parse_result_file(path):
     if m:
         res["time_s"] = float(m.group(1))
     for cm in re.finditer(
-            r"Check (\d+): (\S+)\n\s*- Status: (\w+)\n\s*- Description: \"((?:[^\"\\]|\\.|\"(?!\n))*)\"\n(?:\s*- Location: ([^\n]*)\n)?",
+            r"Check (\d+): ([^\n]+)\n\s*- Status: (\w+)\n\s*- Description: \"((?:[^\"\\]|\\.|\"(?!\n))*)\"\n(?:\s*- Location: ([^\n]*)\n)?",
             txt):
         res["checks"] += 1
         st = cm.group(3)
